@@ -569,6 +569,10 @@ Proof.
   - cbn [step_p snd fst expect]. exists [], mo. split; [reflexivity|]. apply (Post_same mo s _ lg _ HS); reflexivity.
 Qed.
 
+Lemma clones_ok_model s l : clones_ok (map (is_closed_img s) l) = true.
+Proof. unfold clones_ok. apply forallb_forall. intros v Hv. apply in_map_iff in Hv. destruct Hv as (i & <- & _).
+  unfold is_closed_img. destruct (existsb (Z.eqb (i_oid i)) (closed_oids s)); reflexivity. Qed.
+
 Lemma sim_step lg mo s o : time_ok lg -> wf s -> Inv s -> RInv s -> Sim lg mo s -> op_ok o ->
   match mon_step lg mo o (observe s (fst (step_p lg s o)) (snd (step_p lg s o))) with
   | Bad => False
@@ -583,7 +587,7 @@ Proof.
   assert (Hnow : mo_now mo <= op_now mo o).
   { unfold op_in_domain in Ed. rewrite !andb_true_iff in Ed. destruct Ed as [[[_ Ed] _] _]. lia. }
   destruct (sim_finish lg mo s o mo1 ecbs newcbs Hlg Hwf HI HR HS Hop Hnow P1 P2 P3 P4 P5 P6 P7 P8) as [Hc Hs].
-  unfold finish in Hc, Hs. cbv zeta in Hc, Hs. cbv zeta. rewrite Hc. exact Hs.
+  unfold finish in Hc, Hs. cbv zeta in Hc, Hs. cbv zeta. rewrite Hc. rewrite clones_ok_model. exact Hs.
 Qed.
 
 Lemma sim_init lg t0 cid : Sim lg (mon_init t0) (init t0 cid).
